@@ -30,12 +30,12 @@ K_IT = {"quick": 4, "thorough": 6}
 def cases(tier, seed):
     out = []
     for u in range(3):
-        for tp in range(4):
-            for dt in (1, 2, 3):
+        for tp in (range(4) if tier == "quick" else range(12)):
+            for dt in ((1, 2, 3) if tier == "quick" else (1, 2, 3, 4, 5)):
                 out.append(dict(kind="project", ubm=u, tp=tp, dim_t=dt, seed=seed))
     for u in range(3):
         for ts in range(4):
-            for rs in (0, 1, 2):
+            for rs in ((0, 1, 2) if tier == "quick" else (0, 1, 2, 3, 4, 5, 6, 7)):
                 for upd in (True, False):
                     for fl in (1e-10, 0.5, 2.0):
                         for bag in (False, True):
